@@ -10,20 +10,31 @@
         re-exports; qualified names are distinct before and after the move.  Then the final registry is exactly the
         static one with x AND EVERYTHING BELOW IT registered under R.n (nothing under D.x), `contents` of D lacks x,
         `contents` of R has n, and D keeps the alias x -> R.n.
-     C07_reach_via_reexporter_partial, C07_reach_via_module_alias_partial, C07_find_object_old_name_partial -- on ANY
-        state in which the moved object is registered as k1 and D keeps the alias x -> k1 (what C07_moved_once
-        establishes), a scope whose alias map sends a name to k1 (what `from R import n` writes), a scope that knows D
-        under a module alias, and System.find_object with the old qualified name (D a root module) get the moved object:
-        name expansion, resolveName and link_to.  PARTIAL: that the consumer's alias map in the final state is the one
-        its import statements write (DESIGN.md C06_alias_maps_syntactic) is a hypothesis here, not proved.
+     C07_moved_once_star -- the star-import form: R has one `from <D> import *` and lists x in its __all__; D only
+        defines things (no imports, no __all__), x is public and is the only name of D that R exports; nothing else
+        re-exports.  Same conclusion for every schedule (Proofs/ProjectMoveStar.v: the whole star import is the
+        designated operation, a fold over the public names of D of which exactly one moves).
+        C07_star_hypotheses_satisfiable: a concrete project, with the expected registry under both orders.
+     C07_reach_via_reexporter, C07_reach_via_module_alias -- under the hypotheses of C07_moved_once, for a third module C
+        without star imports and `x = dotted.name` statements: if the import statements of C bind a name to R.n (resp. a
+        name d to the module D) -- `static_alias p C`, the alias map read off C's text -- and C neither defines that name
+        nor has a sub-module of that name, then in the FINAL state of EVERY schedule the name (resp. d.x), resolveName
+        (what base classes use) and link_to reach the moved object.  No hypothesis about the state: the alias map of the
+        consumer is proved to be the syntactic one whenever the move happens (Proofs/ProjectMove.v, Section Consumer).
+        C07_reach_hypotheses_satisfiable: the hypotheses hold for a concrete project.
+     C07_find_object_old_name_partial -- PARTIAL (state level): on any state in which the moved object is registered as
+        k1 and the root module D keeps the alias x -> k1 (what C07_moved_once establishes), System.find_object with the
+        old qualified name returns it; the shape of `roots` in the final state is a hypothesis, not proved.
    REFUTED on the faithful model (known finding C07-stale-defining-module-name):
      C07_reach_via_defining_module_refuted -- `from D import x` in a consumer: the name, a base class, link_to are
         unresolved under every schedule.
-   NOT PROVED (sampled by the correspondence check + oracle only): the star-import form of the re-export, a defining
-   module that itself has from-imports (no cycle with R), several re-exports in one project. *)
+   NOT PROVED (sampled by the correspondence check + oracle only): a defining module that itself has imports (no
+   cycle with R), several re-exports in one project (incl. a star import that moves several names), consumers of a
+   star-form re-export (the reach theorems are stated for the by-name form). *)
 From Coq Require Import ZArith NArith List Bool Permutation.
 From PydoctorVerif Require Import Base.Sexp Model.Project Model.Linker Spec.ProjectStatic
-     Proofs.ProjectBase Proofs.ProjectRegistry Proofs.ProjectStaticCheck Proofs.ProjectMove Proofs.LinkerProofs.
+     Proofs.ProjectBase Proofs.ProjectRegistry Proofs.ProjectStaticCheck Proofs.ProjectMove Proofs.LinkerProofs
+     Proofs.ProjectReach Proofs.ProjectMoveStar.
 Import ListNotations.
 Local Open Scope N_scope.
 
@@ -67,25 +78,166 @@ Proof.
                       HDm HDl HDa Honly sigma Hperm).
 Qed.
 
-(* A module or class scope c whose alias map sends the name a to k1, the name under which the moved object xo is
-   registered, and that does not define a itself: the name a, `class C(a)` and a link to a reach xo. *)
-Theorem C07_reach_via_reexporter_partial :
-  forall (s : state) (c : oid) (cb : obj) (a : N) (k1 : path) (xo : oid),
-    dfuel s <> 0%nat -> objs s c = Some cb -> is_module_tag (o_tag cb) = true ->
-    nget a (o_contents cb) = None -> nget a (o_alias cb) = Some k1 -> pget k1 (allobjs s) = Some xo ->
-    expand_name s c [a] = k1 /\ resolve_name s c [a] = Some xo /\ link_to s c [a] = Some xo.
-Proof. exact reach_by_alias. Qed.
+(* The star-import form: R has `from <D> import *` (one star import) and lists x in its __all__; D only defines
+   things (classes, functions, variables: no imports, no __all__, hence no alias of its own), x is public, and x is the
+   only name of D (definition or sub-module) that R exports.  Same conclusion, for every schedule. *)
+Theorem C07_moved_once_star :
+  forall (p : project) (R D ix xname : N) (miR miD : modinfo) (spre spost : list stmt) (lvl : N) (mn : path),
+    parents_first p -> keys_distinct p ->
+    (forall o o', sobj p o <> None -> sobj p o' <> None ->
+                  moved_key p R D ix xname o = moved_key p R D ix xname o' -> o = o') ->
+    R <> D -> ix <> 0 -> sobj p (D, ix, 0) <> None -> sname p (D, ix, 0) = xname ->
+    modinfo_of p R = Some miR ->
+    m_stmts miR = spre ++ SImportStar lvl mn :: spost ->
+    (forall lv m', ~ In (SImportStar lv m') (spre ++ spost)) ->
+    In xname (exports_of_mod miR) ->
+    (forall a, In a (exports_of_mod miR) -> In a (def_names miD) \/ In a (submodule_names p D) -> a = xname) ->
+    static_modname p R lvl mn = Some (skey p (D, 0, 0)) ->
+    modinfo_of p D = Some miD ->
+    (forall st, In st (m_stmts miD) -> match st with SClass _ _ _ _ | SFunc _ _ | SVar _ _ => True | _ => False end) ->
+    is_private_name xname = false ->
+    (* no other import of the project re-exports *)
+    (forall m mi st, modinfo_of p m = Some mi -> In st (m_stmts mi) ->
+       match st with
+       | SImportFrom _ _ nms => forall oa, In oa nms -> ~ In (snd oa) (exports_of_mod mi)
+       | SImportStar _ _ => exports_of_mod mi = [] \/ m = R
+       | _ => True
+       end) ->
+    forall sigma, Permutation sigma (module_ids p) ->
+    exists s, run_state p sigma = Ok s /\
+      (forall k e, reg_entry s k = Some e <->
+                   exists o si, sobj p o = Some si /\ moved_key p R D ix xname o = k /\ e = (s_tag si, s_kind si, s_doc si)) /\
+      (exists names, contents_view s (skey p (D, 0, 0)) = Some names /\ ~ In xname names) /\
+      (exists names, contents_view s (skey p (R, 0, 0)) = Some names /\ In xname names) /\
+      alias_view s (skey p (D, 0, 0)) xname = Some (moved_key p R D ix xname (D, ix, 0)).
+Proof.
+  intros p R D ix xname miR miD spre spost lvl mn Hwf H0 H1 HRD Hix Hxd Hxn HRm HRs Ho Hexp Honlyx Hres HDm HDd Hpub Honly sigma Hperm.
+  assert (HDd' : forall st, In st (m_stmts miD) -> def_stmt st = true).
+  { intros st Hin. pose proof (HDd st Hin) as Hs. destruct st; try contradiction; reflexivity. }
+  exact (moved_static_star p R D ix xname Hwf H0 H1 HRD Hix Hxd Hxn miR miD spre spost lvl mn HRm HRs Ho Hexp Honlyx Hres HDm HDd' Hpub
+                           Honly sigma Hperm).
+Qed.
 
-(* A scope that knows the defining module D under the alias d (`import D as d`): d.x is expanded through the alias
-   that the move left in D. *)
-Theorem C07_reach_via_module_alias_partial :
-  forall (s : state) (c : oid) (cb : obj) (d : N) (kD : path) (Dm : oid) (db : obj) (x : N) (k1 : path) (xo : oid),
-    dfuel s <> 0%nat -> objs s c = Some cb -> is_module_tag (o_tag cb) = true ->
-    nget d (o_contents cb) = None -> nget d (o_alias cb) = Some kD -> pget kD (allobjs s) = Some Dm ->
-    objs s Dm = Some db -> is_module_tag (o_tag db) = true ->
-    nget x (o_contents db) = None -> nget x (o_alias db) = Some k1 -> k1 <> [x] -> pget k1 (allobjs s) = Some xo ->
-    expand_name s c [d; x] = k1 /\ resolve_name s c [d; x] = Some xo /\ link_to s c [d; x] = Some xo.
-Proof. exact reach_by_module_alias. Qed.
+(* pkg/__init__.py: from ._impl import * ; __all__ = ['Foo']
+   pkg/_impl.py   : class Foo: def m(self) ; class Bar
+   names: pkg 1, _impl 2, Foo 10, Bar 11, m 12 *)
+Definition star_project : project :=
+  [ {| m_name := 1; m_parent := None; m_pkg := true; m_doc := 0;
+       m_stmts := [SImportStar 1 [2]; SAll [10]] |};
+    {| m_name := 2; m_parent := Some 0; m_pkg := false; m_doc := 0;
+       m_stmts := [SClass 10 1 [] [(0, 12, 0)]; SClass 11 0 [] []] |} ].
+
+(* the hypotheses of C07_moved_once_star hold for this project (R = pkg, D = pkg._impl, x = Foo); under both orders
+   Foo and Foo.m are documented under pkg only, Bar stays in pkg._impl *)
+Example C07_star_hypotheses_satisfiable :
+  let p := star_project in
+  parents_first p /\ keys_distinct p /\
+  (forall o o', sobj p o <> None -> sobj p o' <> None -> moved_key p 0 1 1 10 o = moved_key p 0 1 1 10 o' -> o = o') /\
+  sobj p (1, 1, 0) <> None /\ sname p (1, 1, 0) = 10 /\
+  static_modname p 0 1 [2] = Some (skey p (1, 0, 0)) /\ is_private_name 10 = false /\
+  (forall m mi st, modinfo_of p m = Some mi -> In st (m_stmts mi) ->
+     match st with
+     | SImportFrom _ _ nms => forall oa, In oa nms -> ~ In (snd oa) (exports_of_mod mi)
+     | SImportStar _ _ => exports_of_mod mi = [] \/ m = 0
+     | _ => True
+     end) /\
+  (forall sigma, In sigma [[0; 1]; [1; 0]] ->
+     run_view p sigma (fun s => (reg_entry s [1; 10], reg_entry s [1; 10; 12], reg_entry s [1; 2; 10], reg_entry s [1; 2; 11])) =
+     Some (Some (T_CLASS, K_CLASS, 1), Some (T_FUNCTION, K_METHOD, 0), None, Some (T_CLASS, K_CLASS, 0))).
+Proof.
+  cbv zeta. split; [apply parents_firstb_sound; vm_compute; reflexivity|].
+  split; [apply keys_distinctb_sound; vm_compute; reflexivity|].
+  split; [apply keysb_sound; vm_compute; reflexivity|].
+  split; [vm_compute; discriminate|].
+  split; [vm_compute; reflexivity|].
+  split; [vm_compute; reflexivity|].
+  split; [vm_compute; reflexivity|].
+  split; [apply only_starb_sound; vm_compute; reflexivity|].
+  intros sigma H. repeat (destruct H as [<-|H]; [vm_compute; reflexivity|]). destruct H.
+Qed.
+
+(* A consumer module C whose import statements bind the name a to R.n (`from R import n`, `from R import n as a`,
+   relative or absolute: `static_alias p C` is the alias map read off the text of C, Spec/ProjectStatic.v), and that
+   neither defines a nor has a sub-module a.  In the final state of EVERY schedule the name a, a base class written
+   a (resolve_name is what Class bases use) and a link to a reach the moved object. *)
+Theorem C07_reach_via_reexporter :
+  forall (p : project) (R D ix xname n : N) (miR miD : modinfo) (spre spost : list stmt) (lvl : N) (mn : path)
+         (npre npost : list (N * N)) (C : N) (miC : modinfo) (a : N),
+    (* the hypotheses of C07_moved_once *)
+    parents_first p -> keys_distinct p ->
+    (forall o o', sobj p o <> None -> sobj p o' <> None -> moved_key p R D ix n o = moved_key p R D ix n o' -> o = o') ->
+    R <> D -> ix <> 0 -> sobj p (D, ix, 0) <> None -> sname p (D, ix, 0) = xname ->
+    modinfo_of p R = Some miR ->
+    m_stmts miR = spre ++ SImportFrom lvl mn (npre ++ (xname, n) :: npost) :: spost ->
+    (forall oa, In oa (npre ++ npost) -> snd oa <> n) ->
+    (forall lv m' nms oa, In (SImportFrom lv m' nms) (spre ++ spost) -> In oa nms -> snd oa <> n) ->
+    In n (exports_of_mod miR) ->
+    static_modname p R lvl mn = Some (skey p (D, 0, 0)) ->
+    modinfo_of p D = Some miD ->
+    (forall st, In st (m_stmts miD) -> local_stmt st = true) ->
+    (forall a, last_all (m_stmts miD) None = Some a -> ~ In xname a) ->
+    (forall m mi st, modinfo_of p m = Some mi -> In st (m_stmts mi) ->
+       match st with
+       | SImportFrom _ _ nms => forall oa, In oa nms -> In (snd oa) (exports_of_mod mi) -> m = R /\ snd oa = n
+       | SImportStar _ _ => exports_of_mod mi = []
+       | _ => True
+       end) ->
+    (* the consumer: a third module without star imports and assignment aliases *)
+    modinfo_of p C = Some miC -> C <> R -> C <> D ->
+    (forall st, In st (m_stmts miC) -> plain_stmt st = true) ->
+    nget a (static_alias p C) = Some (skey p (R, 0, 0) ++ [n]) ->
+    ~ In a (def_names miC) -> ~ In a (submodule_names p C) ->
+    forall sigma, Permutation sigma (module_ids p) ->
+    exists s, run_state p sigma = Ok s /\
+              expand_name s (C, 0, 0) [a] = moved_key p R D ix n (D, ix, 0) /\
+              resolve_name s (C, 0, 0) [a] = Some (D, ix, 0) /\ link_to s (C, 0, 0) [a] = Some (D, ix, 0).
+Proof.
+  intros p R D ix xname n miR miD spre spost lvl mn npre npost C miC a Hwf H0 H1 HRD Hix Hxd Hxn HRm HRs Ho1 Ho2 Hexp Hres HDm HDl HDa
+         Honly HCm HCR HCD HCp Ha Hnd Hns sigma Hperm.
+  exact (reach_via_reexporter p R D ix xname n Hwf H0 H1 HRD Hix Hxd Hxn miR miD spre spost lvl mn npre npost HRm HRs Ho1 Ho2 Hexp Hres
+                              HDm HDl HDa Honly C miC HCm HCR HCD HCp a Ha Hnd Hns sigma Hperm).
+Qed.
+
+(* A consumer module C whose import statements bind the name d to the defining module D itself (`import D as d`,
+   `from pkg import D as d`): d.xname is expanded through the alias that the move left in D and reaches the moved
+   object, in the final state of EVERY schedule. *)
+Theorem C07_reach_via_module_alias :
+  forall (p : project) (R D ix xname n : N) (miR miD : modinfo) (spre spost : list stmt) (lvl : N) (mn : path)
+         (npre npost : list (N * N)) (C : N) (miC : modinfo) (d : N),
+    (* the hypotheses of C07_moved_once *)
+    parents_first p -> keys_distinct p ->
+    (forall o o', sobj p o <> None -> sobj p o' <> None -> moved_key p R D ix n o = moved_key p R D ix n o' -> o = o') ->
+    R <> D -> ix <> 0 -> sobj p (D, ix, 0) <> None -> sname p (D, ix, 0) = xname ->
+    modinfo_of p R = Some miR ->
+    m_stmts miR = spre ++ SImportFrom lvl mn (npre ++ (xname, n) :: npost) :: spost ->
+    (forall oa, In oa (npre ++ npost) -> snd oa <> n) ->
+    (forall lv m' nms oa, In (SImportFrom lv m' nms) (spre ++ spost) -> In oa nms -> snd oa <> n) ->
+    In n (exports_of_mod miR) ->
+    static_modname p R lvl mn = Some (skey p (D, 0, 0)) ->
+    modinfo_of p D = Some miD ->
+    (forall st, In st (m_stmts miD) -> local_stmt st = true) ->
+    (forall a, last_all (m_stmts miD) None = Some a -> ~ In xname a) ->
+    (forall m mi st, modinfo_of p m = Some mi -> In st (m_stmts mi) ->
+       match st with
+       | SImportFrom _ _ nms => forall oa, In oa nms -> In (snd oa) (exports_of_mod mi) -> m = R /\ snd oa = n
+       | SImportStar _ _ => exports_of_mod mi = []
+       | _ => True
+       end) ->
+    (* the consumer: a third module without star imports and assignment aliases *)
+    modinfo_of p C = Some miC -> C <> R -> C <> D ->
+    (forall st, In st (m_stmts miC) -> plain_stmt st = true) ->
+    nget d (static_alias p C) = Some (skey p (D, 0, 0)) ->
+    ~ In d (def_names miC) -> ~ In d (submodule_names p C) ->
+    forall sigma, Permutation sigma (module_ids p) ->
+    exists s, run_state p sigma = Ok s /\
+              expand_name s (C, 0, 0) [d; xname] = moved_key p R D ix n (D, ix, 0) /\
+              resolve_name s (C, 0, 0) [d; xname] = Some (D, ix, 0) /\ link_to s (C, 0, 0) [d; xname] = Some (D, ix, 0).
+Proof.
+  intros p R D ix xname n miR miD spre spost lvl mn npre npost C miC d Hwf H0 H1 HRD Hix Hxd Hxn HRm HRs Ho1 Ho2 Hexp Hres HDm HDl HDa
+         Honly HCm HCR HCD HCp Ha Hnd Hns sigma Hperm.
+  exact (reach_via_module_alias p R D ix xname n Hwf H0 H1 HRD Hix Hxd Hxn miR miD spre spost lvl mn npre npost HRm HRs Ho1 Ho2 Hexp Hres
+                                HDm HDl HDa Honly C miC HCm HCR HCD HCp d Ha Hnd Hns sigma Hperm).
+Qed.
 
 (* System.find_object with the outdated qualified name h.x of an object moved out of the root module h. *)
 Theorem C07_find_object_old_name_partial :
@@ -118,6 +270,45 @@ Example C07_reach_nonvacuous :
     Some (Some [([3; 1], Some [3; 1])], Some [([3; 1], Some [3; 1])], 1, Some ([3; 1], [3; 1])).
 Proof.
   intros sigma H. repeat (destruct H as [<-|H]; [vm_compute; reflexivity|]). destruct H.
+Qed.
+
+(* the hypotheses of C07_reach_via_reexporter / C07_reach_via_module_alias hold for this project
+   (R = api, D = _impl, x = Foo, C = user, a = Foo, d = d) *)
+Example C07_reach_hypotheses_satisfiable :
+  let p := reach_project in
+  parents_first p /\ keys_distinct p /\
+  (forall o o', sobj p o <> None -> sobj p o' <> None -> moved_key p 1 0 1 1 o = moved_key p 1 0 1 1 o' -> o = o') /\
+  sobj p (0, 1, 0) <> None /\ sname p (0, 1, 0) = 1 /\
+  static_modname p 1 0 [524290] = Some (skey p (0, 0, 0)) /\
+  (forall m mi st, modinfo_of p m = Some mi -> In st (m_stmts mi) ->
+     match st with
+     | SImportFrom _ _ nms => forall oa, In oa nms -> In (snd oa) (exports_of_mod mi) -> m = 1 /\ snd oa = 1
+     | SImportStar _ _ => exports_of_mod mi = []
+     | _ => True
+     end) /\
+  (forall mi, modinfo_of p 0 = Some mi -> forall st, In st (m_stmts mi) -> local_stmt st = true) /\
+  (forall mi, modinfo_of p 2 = Some mi ->
+     (forall st, In st (m_stmts mi) -> plain_stmt st = true) /\
+     ~ In 1 (def_names mi) /\ ~ In 5 (def_names mi)) /\
+  ~ In 1 (submodule_names p 2) /\ ~ In 5 (submodule_names p 2) /\
+  nget 1 (static_alias p 2) = Some (skey p (1, 0, 0) ++ [1]) /\
+  nget 5 (static_alias p 2) = Some (skey p (0, 0, 0)).
+Proof.
+  cbv zeta. split; [apply parents_firstb_sound; vm_compute; reflexivity|].
+  split; [apply keys_distinctb_sound; vm_compute; reflexivity|].
+  split; [apply keysb_sound; vm_compute; reflexivity|].
+  split; [vm_compute; discriminate|].
+  split; [vm_compute; reflexivity|].
+  split; [vm_compute; reflexivity|].
+  split; [apply only_moveb_sound; vm_compute; reflexivity|].
+  split; [intros mi E; vm_compute in E; inversion E; subst mi; intros st [<-|[]]; reflexivity|].
+  split.
+  { intros mi E. vm_compute in E. inversion E; subst mi. split; [|split].
+    - intros st Hin. cbn [m_stmts] in Hin. repeat (destruct Hin as [<-|Hin]; [reflexivity|]). destruct Hin.
+    - vm_compute. intros [E1|[E1|[]]]; discriminate.
+    - vm_compute. intros [E1|[E1|[]]]; discriminate. }
+  split; [vm_compute; tauto|]. split; [vm_compute; tauto|].
+  split; vm_compute; reflexivity.
 Qed.
 
 (* pkg/__init__.py: from ._impl import Foo ; __all__ = ['Foo']
